@@ -11,6 +11,12 @@
            oldclone | oldpick:<mask>  the source is built with this schema (union Any { Node, Leaf, Vec3, Pair, Str }), clone / pick is
                                 done with the code generated from the OLDER schema (union Any { Node, Leaf, Vec3 }) and the copy is
                                 verified with the older verifier; members the older schema does not know must read as NONE
+           cycle:<e>:<r>   three build cycles on ONE builder with the reference map left installed: clone_as_root, take the buffer,
+                           reset, again. e: 0 default emitter (flatcc_builder_init), 1 flatcc_builder_custom_init with an explicit
+                           flatcc_emitter context; r: 0 flatcc_builder_reset, 1..4 flatcc_builder_custom_reset(set_defaults, reduce_buffers)
+                           = (0,0) (1,0) (0,1) (1,1). Every cycle must verify, read and share like the source and give the bytes of
+                           the first (fresh) cycle; the map must be empty after every reset (flatcc_builder.h: reset resets the refmap)
+                           -> OK srcv=0 cyc=<first failing cycle or 0> dstv=.. val=.. share=.. same=.. mapreset=.. size=..
    request:  raw <mode> <refmap> <dumps> <hex>   like run, the source is the given (hand-made) buffer
    request:  api          direct test of flatcc_builder_set_refmap / get_refmap / refmap_find / refmap_insert -> API ok | API <failures>
      objects are numbered 0.. in order of appearance, later objects refer to earlier ones by number (sharing = DAG):
@@ -31,6 +37,7 @@
 #include <unistd.h>
 #include "flatcc/flatcc_builder.h"
 #include "flatcc/flatcc_refmap.h"
+#include "flatcc/flatcc_emitter.h"
 #include "c18_clone_builder.h"
 #include "c18_clone_verifier.h"
 #include "c18_clone_old_builder.h"    /* namespace CO: the same schema with `union Any { Node, Leaf, Vec3 }` (an older version) */
@@ -434,6 +441,46 @@ static void run_api(void)
     if (bad) printf("API failed=%u\n", bad); else printf("API ok\n");
 }
 
+static void run_cycles(ns(Node_table_t) sroot, int use_map, int ek, int rk, size_t ssz)
+{
+    flatcc_builder_t B; flatcc_emitter_t E; flatcc_refmap_t map; int cyc, bad = 0, dstv = 0, val = 1, share = 1, same = 1, mapreset = 1;
+    void *first = 0; size_t fsz = 0, dsz = 0; struct obuf vs = {0, 0, 0}, hs = {0, 0, 0}; struct ids is = {0, 0, 0, 0, 0};
+    d_node(&vs, 0, sroot, ~0u); d_node(&hs, &is, sroot, ~0u); ob_put(&vs, ""); ob_put(&hs, "");
+    memset(&E, 0, sizeof(E));
+    if (ek) flatcc_builder_custom_init(&B, flatcc_emitter, &E, 0, 0); else flatcc_builder_init(&B);
+    flatcc_refmap_init(&map);
+    if (use_map) flatcc_builder_set_refmap(&B, &map);
+    for (cyc = 1; cyc <= 3 && !bad; ++cyc) {
+        void *dst = 0; int rc;
+        if (!ns(Node_clone_as_root(&B, sroot))) { bad = cyc; dstv = -1; break; }
+        if (ek) { dsz = flatcc_emitter_get_buffer_size(&E); if (posix_memalign(&dst, 256, dsz + 256)) exit(3); if (!flatcc_emitter_copy_buffer(&E, dst, dsz)) { free(dst); dst = 0; } }
+        else dst = flatcc_builder_finalize_aligned_buffer(&B, &dsz);
+        if (!dst) { bad = cyc; dstv = -4; break; }
+        rc = ns(Node_verify_as_root(dst, dsz));
+        if (rc) { bad = cyc; dstv = rc; }
+        else {
+            struct obuf vd = {0, 0, 0}, hd = {0, 0, 0}; struct ids id = {0, 0, 0, 0, 0};
+            d_node(&vd, 0, ns(Node_as_root(dst)), ~0u); d_node(&hd, &id, ns(Node_as_root(dst)), ~0u); ob_put(&vd, ""); ob_put(&hd, "");
+            if (vd.n != vs.n || memcmp(vd.p, vs.p, vs.n)) { val = 0; bad = cyc; }
+            if (use_map && (hd.n != hs.n || memcmp(hd.p, hs.p, hs.n))) { share = 0; bad = cyc; }
+            free(vd.p); free(hd.p); free((void *)id.p); free((void *)id.rk);
+            if (cyc == 1) { first = malloc(dsz ? dsz : 1); memcpy(first, dst, dsz); fsz = dsz; }
+            else if (dsz != fsz || memcmp(first, dst, dsz)) { same = 0; bad = cyc; }
+        }
+        if (ek) free(dst); else flatcc_builder_aligned_free(dst);
+        /* next cycle: reset the builder, the map stays installed */
+        if (rk == 0) rc = flatcc_builder_reset(&B); else rc = flatcc_builder_custom_reset(&B, rk == 2 || rk == 4, rk == 3 || rk == 4);
+        if (ek) flatcc_emitter_reset(&E);      /* an explicit emitter context is reset by its owner */
+        if (rc) { bad = cyc; dstv = -5; }
+        if (use_map && (map.count != 0 || flatcc_builder_get_refmap(&B) != &map)) mapreset = 0;   /* go on: the next cycle shows the consequence */
+    }
+    if (!bad && !mapreset) bad = 1;
+    printf("OK srcv=0 cyc=%d dstv=%d api=0 nest=1 val=%d share=%d extra=0 same=%d mapreset=%d back_src=%lu size=%lu/%lu\n", bad, dstv, val, share, same, mapreset,
+           (unsigned long)is.back, (unsigned long)ssz, (unsigned long)dsz);
+    flatcc_builder_set_refmap(&B, 0); flatcc_refmap_clear(&map); flatcc_builder_clear(&B); if (ek) flatcc_emitter_clear(&E);
+    free(first); free(vs.p); free(hs.p); free((void *)is.p); free((void *)is.rk);
+}
+
 static void run(char **tok, int ntok)
 {
     flatcc_builder_t B1, B2; flatcc_refmap_t refmap; void *src = 0, *dst = 0; size_t ssz = 0, dsz = 0;
@@ -463,6 +510,7 @@ have_src:
     if (!srcv && old) srcv = CO_Node_verify_as_root(src, ssz);
     if (srcv) { printf("ERR source does not verify: %s\n", flatcc_verify_error_string(srcv)); goto done1; }
     sroot = ns(Node_as_root(src));
+    if (!strncmp(mode, "cycle", 5)) { run_cycles(sroot, use_map, (int)(mask & 0xff), (int)split, ssz); goto done1; }
     d_node(&hs, &is, sroot, mask); nalias = key_aliases(&is);
 
     flatcc_builder_init(&B2); flatcc_refmap_init(&refmap);
